@@ -1,13 +1,15 @@
 import json, os, re, shutil
 
 SPEC = {
-    "lean_modules": ["SemaModel.C15.Props"],
+    "lean_modules": ["SemaModel.C15.Props", "SemaModel.C15.Tie"],
     "lean_dirs": ["SemaModel/C15"],
     "harness": "c15",
     "harness_args": {"quick": ["-n", 3000, "-hist", 6, "-steps", 25], "thorough": ["-n", 40000, "-hist", 40, "-steps", 40]},
     "timeout": {"quick": 170, "thorough": 1100},
     "level": "proof",
-    "tie": "T3: the real cluster.distributePoints (tagged wrapper cluster.VerifDistributePoints) and the hand-written Lean model are run on the same op lines "
+    "tie": "T1: cluster/placement.go distributePoints is translated to SemaModel/Generated/Placement.lean on every run (tools/go2lean, extended subset) and "
+           "C15_tie proves that the hand-written C15.distribute equals the translated function for all inputs (representation maps in C15/Tie.lean); "
+           "T3: the real cluster.distributePoints (tagged wrapper cluster.VerifDistributePoints) and the hand-written Lean model are run on the same op lines "
            "(boundary grid: count limit 1..3, size limit 16..48, 0..2 shards at / just below / above each limit, 0..4 points; random: 0..5 shards, 0..13 points, "
            "limits incl. 0 and negative, point sizes from 16 (empty Data) to a whole shard +-1, createShardFn failing after 0..29 calls); "
            "end to end: histories of collection creations and inserts around the quota boundaries on one in-process cluster node "
@@ -17,6 +19,7 @@ SPEC = {
         "Sema.C15.C15_ids_nodup", "Sema.C15.C15_fuel", "Sema.C15.C15_fuel_stable",
         "Sema.C15.C15_diverges_without_fits", "Sema.C15.C15_fits_or_stuck",
         "Sema.C15.C15_quota_insert", "Sema.C15.C15_count", "Sema.C15.C15_quota_respected", "Sema.C15.C15_quota_create",
+        "Sema.C15.C15_tie",
     ],
     "trusted_base": [
         "int64 sizes / counts / limits are modelled in Int: sums are assumed not to overflow 2^63",
